@@ -80,8 +80,9 @@ QuoteV(v) == IF ~v.q THEN [v EXCEPT !.q = TRUE] ELSE [V("quote", 0, "", "", TRUE
 \* ------------------------------------------------------- builtin registry
 \* (name -> kind) of everything this machine knows in package lisp
 OPS    == {"quote", "if", "progn", "let", "let*", "flet", "labels", "lambda", "cond", "and", "or",
-           "set!", "handler-bind", "ignore-errors", "dotimes", "quasiquote", "thread-first", "thread-last", "macrolet", "boom-op"}
-MACROS == {"defun", "defmacro", "boom-macro"}
+           "set!", "handler-bind", "ignore-errors", "dotimes", "quasiquote", "thread-first", "thread-last", "macrolet", "boom-op",
+           "function", "assert", "expr"}
+MACROS == {"defun", "defmacro", "boom-macro", "defconst", "curry-function", "get-default"}
 FUNS   == {"+", "-", "*", "/", "=", "<", ">", "<=", ">=", "not", "list", "cons", "car", "cdr", "first", "rest",
            "length", "identity", "nil?", "set", "funcall", "apply", "error", "rethrow", "probe", "boom",
            "load-string", "in-package", "use-package", "export", "capture",
@@ -89,7 +90,8 @@ FUNS   == {"+", "-", "*", "/", "=", "<", ">", "<=", ">=", "not", "list", "cons",
            "map", "foldl", "foldr", "select", "reject", "any?", "all?", "nth", "second", "append", "concat", "reverse", "empty?",
            "mod", "max", "min", "list?", "int?", "symbol?", "true?", "float?", "number?",
            "vector", "vector?", "array?", "aref", "string?", "sorted-map", "sorted-map?", "get", "key?", "keys", "assoc", "dissoc",
-           "to-string", "string=", "slice", "make-sequence", "zip", "insert-index"}
+           "to-string", "string=", "slice", "make-sequence", "zip", "insert-index",
+           "compose", "flip", "unpack", "bool?", "symbol="}
 BuiltinKind(name) == IF name \in OPS THEN "op" ELSE IF name \in MACROS THEN "macro" ELSE "fun"
 BuiltinFID(v) == IF v.p = "op" THEN "<special-op ``" \o v.s \o "''>"
                  ELSE IF v.p = "macro" THEN "<builtin-macro ``" \o v.s \o "''>"
@@ -122,7 +124,11 @@ Arity(name) ==
     [] name = "load-string" -> <<1, 3>>
     [] name \in {"rethrow", "boom", "capture"} -> <<0, 0>>
     [] name \in {"let", "let*", "flet", "labels", "lambda", "handler-bind", "dotimes", "thread-first", "thread-last", "macrolet"} -> <<1, -1>>
-    [] name \in {"defun", "defmacro"} -> <<2, -1>>
+    [] name \in {"defun", "defmacro", "defconst"} -> <<2, -1>>
+    [] name \in {"curry-function", "assert"} -> <<1, -1>>
+    [] name = "get-default" -> <<3, 3>>
+    [] name \in {"compose", "unpack", "symbol="} -> <<2, 2>>
+    [] name \in {"flip", "bool?", "function", "expr"} -> <<1, 1>>
     [] OTHER -> <<0, -1>>
 ArityOK(name, k) == k >= Arity(name)[1] /\ (Arity(name)[2] = -1 \/ k <= Arity(name)[2])
 
@@ -205,6 +211,10 @@ Charge(s, env) ==
        IF s2.cfg.cancel > 0 /\ s2.polls >= s2.cfg.cancel
        THEN <<WithErr(s2, "context-cancelled", Msg, env), FALSE>>
        ELSE <<s2, TRUE>>
+
+RECURSIVE ChargeN(_, _, _)
+ChargeN(s, env, k) == IF k = 0 THEN <<s, TRUE>>
+                      ELSE LET ch == Charge(s, env) IN IF ~ch[2] THEN ch ELSE ChargeN(ch[1], env, k - 1)
 
 \* ------------------------------------------------------------------ lookup
 RECURSIVE LexLookup(_, _, _)
@@ -496,6 +506,8 @@ PureBuiltin(name, a) ==
                      IF IntArgs(a) THEN good(VBool(Cmp(name, a[1].n, a[2].n)))
                      ELSE IF NumArgs(a) /\ ~AnyUntracked(a) THEN good(VBool(Cmp(name, Scaled(a[1]), Scaled(a[2]))))     \* tracked floats compare by value
                      ELSE bad
+    [] name = "bool?" -> good(VBool(a[1].t = "sym" /\ a[1].p = "" /\ a[1].s \in {"true", "false"}))
+    [] name = "symbol=" -> IF a[1].t = "sym" /\ a[2].t = "sym" THEN good(VBool(a[1].p = a[2].p /\ a[1].s = a[2].s)) ELSE bad
     [] name = "not" -> good(VBool(~Truthy(a[1])))
     [] name = "nil?" -> good(VBool(IsNilV(a[1])))
     [] name = "identity" -> good(a[1])
@@ -616,6 +628,61 @@ UsePackages(s, args, env) ==
 
 FormalsOK(fl) == fl.t = "list" /\ \A j \in 1..Len(fl.c) : fl.c[j].t = "sym"
 
+\* GetFunGlobal: a symbol names a binding of the current PACKAGE (or a qualified one), never a lexical one
+FunGlobal(s, fa) ==
+  IF fa.t = "sym"
+  THEN (IF fa.p = "" /\ fa.s \notin {"true", "false"} /\ PkgHas(s, s.pkg, fa.s) THEN NameFun(s.pkgs[s.pkg].syms[fa.s], fa)
+        ELSE IF fa.p \notin {"", ":"} /\ PkgHas(s, fa.p, fa.s) THEN NameFun(s.pkgs[fa.p].syms[fa.s], fa) ELSE VNil)
+  ELSE fa
+\* formal argument list of a builtin as far as arity describes it (the names are immaterial)
+BuiltinFormalsV(name) ==
+  LET a == Arity(name) IN
+  [j \in 1..a[1] |-> VSym("p" \o ToString(j))] \o
+  (IF a[2] = -1 THEN <<VSym("&rest"), VSym("r")>>
+   ELSE IF a[2] > a[1] THEN <<VSym("&optional")>> \o [j \in 1..(a[2] - a[1]) |-> VSym("o" \o ToString(j))] ELSE <<>>)
+FunFormals(s, f) == IF f.n = 0 THEN BuiltinFormalsV(f.s) ELSE s.funs[f.n].formals
+\* compose: the arguments g is applied to - every parameter name in order, then the &rest name or ()
+RECURSIVE GArgs(_, _)
+GArgs(fs, i) ==
+  IF i > Len(fs) THEN [ok |-> TRUE, args |-> <<>>, rest |-> VNil]
+  ELSE IF fs[i].s \in {"&optional", "&key"} THEN GArgs(fs, i + 1)
+  ELSE IF fs[i].s = "&rest" THEN [ok |-> Len(fs) = i + 1, args |-> <<>>, rest |-> IF Len(fs) = i + 1 THEN fs[i + 1] ELSE VNil]
+  ELSE LET r == GArgs(fs, i + 1) IN [ok |-> r.ok, args |-> <<fs[i]>> \o r.args, rest |-> r.rest]
+GenSymV(k) == [VSym("gen" \o ToString(k)) EXCEPT !.n = k]
+
+\* expr (the #^ shorthand): the formal list is read off the TOP-LEVEL cells of the body; only unquoted SYMBOLS are
+\* argument placeholders: % alone, %1 .. %9, %&optional, %&rest
+PctIdx(nm) == CASE nm = "%1" -> 1 [] nm = "%2" -> 2 [] nm = "%3" -> 3 [] nm = "%4" -> 4 [] nm = "%5" -> 5 [] nm = "%6" -> 6
+                [] nm = "%7" -> 7 [] nm = "%8" -> 8 [] nm = "%9" -> 9 [] OTHER -> 0
+IsPct(x) == x.t = "sym" /\ ~x.q /\ x.p = "" /\ (x.s \in {"%", "%&rest", "%&optional"} \/ PctIdx(x.s) > 0)
+RECURSIVE ExprScan(_, _, _)
+ExprScan(cells, i, st) ==
+  IF i > Len(cells) \/ ~st.ok THEN st
+  ELSE LET x == cells[i] IN
+       IF ~IsPct(x) THEN ExprScan(cells, i + 1, st)
+       ELSE IF x.s = "%" THEN (IF st.short THEN ExprScan(cells, i + 1, st)
+                               ELSE IF st.n > 0 THEN [st EXCEPT !.ok = FALSE]
+                               ELSE ExprScan(cells, i + 1, [st EXCEPT !.short = TRUE]))
+       ELSE IF x.s = "%&optional" THEN ExprScan(cells, i + 1, [st EXCEPT !.opt = TRUE])
+       ELSE IF x.s = "%&rest" THEN ExprScan(cells, i + 1, [st EXCEPT !.rest = TRUE])
+       ELSE IF st.short THEN [st EXCEPT !.ok = FALSE]
+       ELSE ExprScan(cells, i + 1, [st EXCEPT !.n = Max(@, PctIdx(x.s))])
+ExprSpec(body) ==
+  LET none == [ok |-> TRUE, n |-> 0, short |-> FALSE, opt |-> FALSE, rest |-> FALSE] IN
+  IF body.q THEN none
+  ELSE CASE body.t = "sym" -> (IF ~IsPct(body) THEN none
+                               ELSE IF body.s = "%" THEN [none EXCEPT !.short = TRUE]
+                               ELSE IF body.s = "%&rest" THEN [none EXCEPT !.rest = TRUE]
+                               ELSE IF body.s = "%&optional" THEN [none EXCEPT !.opt = TRUE]
+                               ELSE [none EXCEPT !.n = PctIdx(body.s)])
+         [] body.t = "list" -> ExprScan(body.c, 1, none)
+         [] body.t \in {"int", "float", "str"} -> none
+         [] OTHER -> [none EXCEPT !.ok = FALSE]
+ExprFormals(sp) ==
+  (IF sp.short THEN <<VSym("%")>> ELSE [j \in 1..sp.n |-> VSym("%" \o ToString(j))])
+  \o (IF sp.opt THEN <<VSym("&optional"), VSym("%&optional")>> ELSE <<>>)
+  \o (IF sp.rest THEN <<VSym("&rest"), VSym("%&rest")>> ELSE <<>>)
+
 DoCall(s) ==
   LET f == s.ctl.f  args == s.ctl.args  env == s.ctl.env  n == Len(args)
       kind == FunKind(s, f) IN
@@ -641,7 +708,29 @@ DoCall(s) ==
                                                        qs |-> <<>>, pend |-> [k |-> "", ql |-> 0]]),
                                      !.ctl = [mode |-> "opstep"]]
   ELSE IF kind = "macro"
-  THEN \* defun / defmacro: expansion (lisp:progn (lisp:set 'name <fun>) ())
+  THEN IF f.s = "defconst"
+       THEN \* (lisp:progn (lisp:set 'name value docstring...) (lisp:export 'name) ())
+            IF args[1].t # "sym" THEN Fail(s, env)
+            ELSE [s EXCEPT !.ctl = Ret(VList(<< VPSym("lisp", "progn"),
+                                               VList(<< VPSym("lisp", "set"), QuoteV(args[1]), args[2] >> \o SubSeq(args, 3, n)),
+                                               VList(<< VPSym("lisp", "export"), QuoteV(args[1]) >>),
+                                               VNil >>))]
+       ELSE IF f.s = "curry-function"
+       THEN \* (lambda (&rest G) (lisp:apply fun args... G)) with G a fresh gensym
+            LET g == GenSymV(s.ngen + 1) IN
+            [s EXCEPT !.ngen = @ + 1,
+                      !.ctl = Ret(VList(<< VSym("lambda"), VList(<< VSym("&rest"), g >>),
+                                          VList(<< VPSym("lisp", "apply"), args[1] >> \o SubSeq(args, 2, n) \o << g >>) >>))]
+       ELSE IF f.s = "get-default"
+       THEN \* '(lisp:let ((M map) (K key)) (lisp:if (lisp:key? M K) (lisp:get M K) default)) with two fresh gensyms
+            LET g1 == GenSymV(s.ngen + 1)  g2 == GenSymV(s.ngen + 2) IN
+            [s EXCEPT !.ngen = @ + 2,
+                      !.ctl = Ret(VQList(<< VPSym("lisp", "let"),
+                                           VList(<< VList(<< g1, args[1] >>), VList(<< g2, args[2] >>) >>),
+                                           VList(<< VPSym("lisp", "if"), VList(<< VPSym("lisp", "key?"), g1, g2 >>),
+                                                    VList(<< VPSym("lisp", "get"), g1, g2 >>), args[3] >>) >>))]
+       ELSE
+       \* defun / defmacro: expansion (lisp:progn (lisp:set 'name <fun>) ())
        LET sym == args[1]  fl == args[2] IN
        IF sym.t # "sym" \/ ~(fl.t = "list") THEN Fail(s, env)
        ELSE LET s1 == MkClosure(s, IF f.s = "defmacro" THEN "macro" ELSE "fun", fl, SubSeq(args, 3, n), env)
@@ -719,7 +808,23 @@ DoCall(s) ==
          IF args[1].t # "list" THEN Fail(s, env)
          ELSE [s EXCEPT !.k = Append(@, [t |-> "mx", all |-> (f.s = "macroexpand"), depth |-> 0, env |-> env, form |-> args[1]]),
                         !.ctl = [mode |-> "mxstep"]]
-    [] f.s \in {"funcall", "apply"} ->
+    [] f.s \in {"compose", "flip"} ->
+         \* both build a new lambda in the CALLER's environment around the function VALUES
+         LET fv == FunGlobal(s, args[1]) IN
+         IF ~IsFun(fv) \/ FunKind(s, fv) # "fun" THEN Fail(s, env)
+         ELSE IF f.s = "flip"
+         THEN IF Len(FunFormals(s, fv)) < 2 THEN Fail(s, env)
+              ELSE LET s1 == MkClosure(s, "fun", VList(<< VSym("x"), VSym("y") >>), << VList(<< fv, VSym("y"), VSym("x") >>) >>, env) IN
+                   [s1 EXCEPT !.ctl = Ret(VClosure(Len(s1.funs), ""))]
+         ELSE LET gv == FunGlobal(s, args[2]) IN
+              IF ~IsFun(gv) \/ FunKind(s, gv) # "fun" THEN Fail(s, env)
+              ELSE LET fs == FunFormals(s, gv)  ga == GArgs(fs, 1) IN
+                   IF ~ga.ok THEN Fail(s, env)
+                   ELSE LET gcall == VList(<< VPSym("lisp", "apply"), gv >> \o ga.args \o << ga.rest >>)
+                            body == VList(<< VPSym("lisp", "funcall"), fv, gcall >>)
+                            s1 == MkClosure(s, "fun", VList(fs), << body >>, env) IN
+                        [s1 EXCEPT !.ctl = Ret(VClosure(Len(s1.funs), ""))]
+    [] f.s \in {"funcall", "apply", "unpack"} ->
          \* GetFunGlobal: a symbol is looked up in the current *package*, not lexically
          LET fa == args[1]
              fv == IF fa.t = "sym"
@@ -728,7 +833,7 @@ DoCall(s) ==
                    ELSE fa
              rest == Rest(args) IN
          IF ~IsFun(fv) \/ FunKind(s, fv) # "fun" THEN Fail(s, env)
-         ELSE IF f.s = "apply" /\ (Len(rest) = 0 \/ Top(rest).t # "list") THEN Fail(s, env)
+         ELSE IF f.s # "funcall" /\ (Len(rest) = 0 \/ Top(rest).t # "list") THEN Fail(s, env)
          ELSE LET fargs == IF f.s = "funcall" THEN rest ELSE Pop(rest) \o Top(rest).c IN
               \* the builtin's own frame enters its terminal state, then env.FunCall
               [s EXCEPT !.frames = SetTop(@, [Top(@) EXCEPT !.term = TRUE]),
@@ -854,6 +959,27 @@ OpStep(s) ==
          IF o.j = 0 THEN SubEval(s, [o EXCEPT !.j = 1], a[1], env)
          ELSE IF Truthy(o.vals[1]) THEN TailEval(s, o, a[2], env) ELSE TailEval(s, o, a[3], env)
     [] o.op = "progn" -> Progn(s, o, a, o.j, env)
+    [] o.op = "function" ->
+         \* env.GetFun: a symbol is looked up LEXICALLY first (unlike funcall's GetFunGlobal)
+         IF a[1].t = "sym"
+         THEN LET r == SymValue(s, a[1], env) IN
+              IF r.ok /\ IsFun(r.v) THEN OpReturn(s, NameFun(r.v, a[1])) ELSE OpFail(s, env)
+         ELSE IF IsFun(a[1]) THEN OpReturn(s, a[1]) ELSE OpFail(s, env)
+    [] o.op = "assert" ->
+         \* the test, then (only when it fails and a message is given) the message arguments in order, then the error
+         IF n > 1 /\ a[2].t # "str" THEN OpFail(s, env)
+         ELSE IF o.j = 0 THEN SubEval(s, [o EXCEPT !.j = 1], a[1], env)
+         ELSE IF o.j = 1 /\ Truthy(o.vals[1]) THEN OpReturn(s, VNil)
+         ELSE IF n <= 1 THEN OpFail(s, env)
+         ELSE IF o.j - 1 < n - 2 THEN SubEval(s, [o EXCEPT !.j = @ + 1], a[o.j + 2], env)
+         ELSE OpFail(s, env)
+    [] o.op = "expr" ->
+         LET sp == ExprSpec(a[1]) IN
+         IF ~sp.ok THEN OpFail(s, env)
+         ELSE \* (one step is charged per positional parameter: the loop that builds them polls the limits)
+              LET ch == ChargeN(s, env, IF sp.short THEN 0 ELSE sp.n) IN
+              IF ~ch[2] THEN [PopCall([ch[1] EXCEPT !.k = Pop(@)]) EXCEPT !.ctl = ch[1].ctl]
+              ELSE LET s1 == MkClosure(ch[1], "fun", VList(ExprFormals(sp)), << a[1] >>, env) IN OpReturn(s1, VClosure(Len(s1.funs), ""))
     [] o.op = "or" ->
          IF n = 0 THEN OpReturn(s, VFalse)
          ELSE IF o.j > 0 /\ Truthy(Top(o.vals)) THEN OpReturn(s, Top(o.vals))
